@@ -48,11 +48,12 @@ def write_cfg(path, spec_consts, invariants=(), properties=(), post=None, view=N
         f.write("CHECK_DEADLOCK FALSE\n")
 
 
-def validate_trace(trace_spec, trace, deviations, workdir, parts=8, heap="3g", consts=None, no_checkmem=False):
+def validate_trace(trace_spec, trace, deviations, workdir, parts=8, heap="3g", consts=None, no_checkmem=False,
+                   no_deviations=False):
     """Validate one trace file against a trace spec. Returns dict with accepted, fail_line, deviations, skips."""
     chunks, lines = split_trace(trace, parts, workdir)
     cfg = os.path.join(workdir, "trace.cfg")
-    k = {"Deviations": c.tla_set(deviations)}
+    k = {} if no_deviations else {"Deviations": c.tla_set(deviations)}
     if not no_checkmem:
         k["CheckMem"] = "FALSE"
     if consts:
@@ -97,6 +98,11 @@ def validate_trace(trace_spec, trace, deviations, workdir, parts=8, heap="3g", c
             raise c.Infra("TLC failed on %s without a verdict:\n%s" % (path, r.out[-3000:]))
         # rejected: the diameter is the number of the first line nothing explains (within the chunk)
         line_in_chunk = r.depth
+        if not r.printed("MISMATCH-LINE"):
+            # specs that print diagnostics only on request: second pass aimed at the rejected line
+            r2 = c.tlc(trace_spec + ".tla", cfg, workdir, env={"TRACE": path, "DIAG": str(line_in_chunk)}, workers=1,
+                       heap=heap, timeout=3600)
+            r.out += r2.out
         if out["accepted"] or first + line_in_chunk < out["fail"]["line"]:
             out["accepted"] = False
             out["fail"] = {"line": first + line_in_chunk, "chunk": path, "line_in_chunk": line_in_chunk,
